@@ -24,6 +24,7 @@ def check(chk, thorough=False):
     chk.run('C01.d', 'R-ORDER+R-GUARD', 'receiver: setup only on START, mismatch rejected before any write, delivery only under END and of the written item', lambda ob: (c01d(tree, ob), _start_guard(tree, ob)), floor=7)
     chk.run('C01.e', 'R-GUARD+R-WHO', "'success' is signalled for a sent bundle only in the ACK handler under END", lambda ob: c01e(tree, ob), floor=1)
     chk.run('C01.f', 'R-ORDER', 'every path from send_bundle_started to a return sends a segment or re-arms the queue', lambda ob: c01f(tree, ob), floor=1)
+    chk.run('C01.j', 'R-FLOW', 'the send entry queues a file over exactly the octets passed in (byte-array conversion only)', lambda ob: __import__('sa.props.common', fromlist=['entry_fidelity']).entry_fidelity(tree, ob, 'tcpcl/session.py', 'ContactHandler.send_bundle_data'), floor=1)
     chk.run('C01.i', 'R-GUARD', 'back-pressure is not taken for a dead connection: a send that would block keeps the octets and the connection', lambda ob: c01i(tree, ob), floor=2)
     chk.run('C01.g', 'R-WHO', 'the active-transfer state of each direction is written only by its own setup / teardown / pump functions', lambda ob: c01g(tree, ob), floor=6)
     chk.run('C01.h', 'R-SCHEMA', 'segment data and extension lengths are verified against what was read, also when empty (= C07.c)', lambda ob: _c07c(tree, ob), floor=6)
